@@ -228,8 +228,11 @@ CHECKS = {
          'under the global context; the model is tied to the current source by evaluating `agree` (entrywise and '
          'residual bound 64 n cond eps against the exact inverse; raised <-> Singular) in Coq on inputs run through '
          'the implementation on every run.',
-         'Floating-point rounding is outside the theorems (bound measured, not proved). Trusted: Coq kernel + '
-         'vm_compute, the python harness, the K1 classifier. Known finding K1 (rounding hides zero pivots).',
+         'Floating-point rounding is outside the theorems (bound measured, not proved). PARTIAL: the converse of the '
+         'completeness theorem (the exact algorithm reports Singular ONLY for singular matrices, i.e. totality on '
+         'regular input) is not proved; it is exercised by the correspondence (every generated regular matrix is '
+         'inverted by model and implementation). Trusted: Coq kernel + vm_compute, the python harness, the K1 '
+         'classifier. Known finding K1 (rounding hides zero pivots).',
          'DESIGN.md section 6 (C17)'),
 }
 
